@@ -83,6 +83,12 @@ impl<'a, TPrinter: Printer> FileExecutor<'a, TPrinter> {
             let mut verif_line_index = 0usize;
             #[cfg(feature="verif_hooks")]
             { verif_file_index += 1; }
+
+            // Nothing more is read once the limit has been reached (not from this file and not from the next ones)
+            if self.execution_engine.reached_limit() {
+                break;
+            }
+
             for line in reader.lines() {
                 #[cfg(feature="verif_hooks")]
                 {
@@ -224,6 +230,10 @@ impl<'a> FollowFileExecutor<'a> {
 
         for input_line in FollowFileIterator::new(self.reader.take().unwrap()) {
             if !self.running.load(Ordering::SeqCst) {
+                break;
+            }
+
+            if self.execution_engine.reached_limit() {
                 break;
             }
 
